@@ -301,6 +301,93 @@ def rule_siblings(ctx):
     return r
 
 
+def rule_samecap(ctx):
+    """The truncation (``HyperGraph.compress``) and its cost estimate (the trackers'
+    ``neighborhood_compress_cost(self.chi, ...)``) are two parties that each get the cap from
+    their caller; "a cost is charged iff compress truncates" ([C20-SIBLING]) holds only if they get
+    the *same* cap.  Every object that keeps a cap (``self.chi = ...``) keeps the caller's value
+    unchanged, or its documented 'auto' resolution under the ``chi == "auto"`` test (seed C20_7
+    clamped the tracker's cap to the auto value)."""
+    r = RuleResult("C20-SAMECAP", "every party keeps the caller's bond cap unchanged", 3)
+    paths = SCOPE + (THOROUGH_SCOPE if ctx.tier == "thorough" else [])
+    for path in paths:
+        if path not in ctx.p.modules:
+            continue
+        for f in ctx.p.module(path).all_funcs:
+            fl = None
+            for n in walk_local(f.node):
+                if not (isinstance(n, ast.Assign) and any(isinstance(t, ast.Attribute) and t.attr == "chi"
+                                                          and dotted(t.value) == "self" for t in n.targets)):
+                    continue
+                fl = fl or ctx.flow(f)
+                key = ctx.key(f, "C20-SAMECAP", "store")
+                at = fl.cfg.containing(n, f.module.parents)
+                v = n.value
+                auto_guard = any(in_true and _is_auto_test(i.test) for i, in_true in C.enclosing_ifs(f, n))
+                verdict = _cap_value(f, fl, v, at.id)
+                if auto_guard and verdict != "param":
+                    r.ok(key, C.loc(f, n), f"'auto' resolution `{C.unparse(v, 50)}` under the chi == \"auto\" test")
+                elif verdict == "param":
+                    r.ok(key, C.loc(f, n), "the caller's cap is kept as given")
+                else:
+                    r.violation(key, C.loc(f, n), f"`{C.unparse(n, 60)}` keeps a cap that differs from the one the "
+                                f"caller gave ({verdict}): the cost estimate and the truncation it prices no "
+                                f"longer use the same cap, so a compression is charged that never happens (or the "
+                                f"reverse)")
+    return r
+
+
+def _is_auto_test(t):
+    return isinstance(t, ast.Compare) and len(t.ops) == 1 and isinstance(t.ops[0], ast.Eq) and \
+        isinstance(t.comparators[0], ast.Constant) and t.comparators[0].value == "auto"
+
+
+def _cap_value(f, fl, v, at, depth=0):
+    """'param' if the value is a parameter of f unchanged (through plain aliases / conversions that
+    keep the value), else a description"""
+    if depth > 4:
+        return "too deep"
+    if isinstance(v, ast.Name):
+        defs = fl.defs_reaching(v.id, at)
+        if not defs:
+            return f"`{v.id}` undefined"
+        out = set()
+        for d in defs:
+            if d.kind == "param":
+                out.add("param")
+            elif d.value is not None and d.index is None:
+                # a definition under the auto test is the auto resolution
+                st = fl.cfg.nodes[d.node].ast
+                if st is not None and any(in_true and _is_auto_test(i.test) for i, in_true in C.enclosing_ifs(f, st)):
+                    out.add("param")
+                else:
+                    out.add(_cap_value(f, fl, d.value, d.node, depth + 1))
+            else:
+                out.add("unpacked")
+        out.discard("param")
+        return "param" if not out else sorted(out)[0]
+    if isinstance(v, ast.Attribute) and v.attr == "chi":
+        return "param"
+    if isinstance(v, ast.Call) and dotted(v.func) in ("int", "float") and len(v.args) == 1:
+        return _cap_value(f, fl, v.args[0], at, depth + 1)
+    if isinstance(v, ast.IfExp) and _is_auto_test(v.test):
+        return _cap_value(f, fl, v.orelse, at, depth + 1)
+    if isinstance(v, ast.IfExp):
+        a, b = _cap_value(f, fl, v.body, at, depth + 1), _cap_value(f, fl, v.orelse, at, depth + 1)
+        return "param" if a == b == "param" else (a if a != "param" else b)
+    return f"`{C.unparse(v, 40)}`"
+
+
+def rule_topo(ctx):
+    """Shared with C02-TOPO (seed C20_8): the estimator replays the tree in ``traverse(order)``; for a
+    compressed tree the default order is the surface order, i.e. the ordered traversal, and a parent
+    visited before its child makes every estimate raise instead of returning a figure."""
+    from .c02 import rule_topo as src
+
+    return C.reuse_rule(ctx, src, "C02-TOPO", "C20-TOPO",
+                        "the estimator visits children before parents", lambda i: True, 1)
+
+
 def rule_range(ctx):
     """Sibling cross-check of *which tensors* the 'largest tensor' figure ranges
     over in the exact tree and in the compressed tracker."""
@@ -534,5 +621,5 @@ def rule_surv(ctx):
                         "or in the output", lambda i: C.HYPERGRAPH in i.construct, 2)
 
 
-RULES = [rule_cap, rule_sizewrites, rule_own, rule_siblings, rule_range, rule_steps, rule_surv,
+RULES = [rule_cap, rule_sizewrites, rule_own, rule_siblings, rule_samecap, rule_topo, rule_range, rule_steps, rule_surv,
          rule_freshstats, rule_reset]
